@@ -18,6 +18,7 @@ from __future__ import annotations
 
 import glob
 import json
+import os
 import random
 import shutil
 import threading
@@ -565,11 +566,12 @@ def main(tier: str, seed: int) -> int:
     import pharmpy.modeling  # noqa: F401
 
     rng = random.Random(seed)
-    n_text = {"quick": 60000, "thorough": 1200000}[tier]
+    scale = float(os.environ.get("VERIF_BUDGET_SCALE", "1"))  # < 1 only for fast mutant screening
+    n_text = int({"quick": 60000, "thorough": 1200000}[tier] * scale)
     if len(texts) > n_text:
         texts = rng.sample(texts, n_text)
     rtexts = _c04_record_texts(tier, seed)
-    n_lay = {"quick": 1500, "thorough": 30000}[tier]
+    n_lay = int({"quick": 1500, "thorough": 30000}[tier] * scale)
     lay_work = [("layout", c["kinds"], c["edit"], rng.randrange(1 << 30)) for c in layouts]
     # the empty edit on every layout, the other edits sampled
     empties = [w for w in lay_work if w[2] == "Empty"]
@@ -610,7 +612,7 @@ def main(tier: str, seed: int) -> int:
              "each real old/new record stream is validated by TLC",
         samples=samples, exhaustive=False,
     )
-    return v.finish(min_traces=2000 if tier == "quick" else 20000)
+    return v.finish(min_traces=(2000 if tier == "quick" else 20000) if scale >= 1 else 100)
 
 
 def replay(path: str) -> int:
